@@ -1216,6 +1216,11 @@ func applyKill(st *State, loc string, kind int, idx *Term) {
 				return false
 			}
 		}
+		// a callee's store into a sender's slot (no index term at hand): the own slot is another one when the path knows
+		// that every sender it has met is not this node (the same test the demand engine applies)
+		if idx == nil && kind == KillNNSender && jc == "own" && senderIsNotOwn(st.F) {
+			return false
+		}
 		return true
 	})
 	// env values reading the location become opaque
@@ -2181,7 +2186,6 @@ func (w *Walker) recA() *Analysis {
 	return w.A
 }
 
-
 // knownResponse: on this path the entry base[idx] is known to be a PrepareResponse (the test `Type() == PrepareResponseType`
 // was taken for the element the index denotes).
 func (w *Walker) knownResponse(base, idx *Term, st *State) bool {
@@ -2204,7 +2208,6 @@ func (w *Walker) knownResponse(base, idx *Term, st *State) bool {
 	}
 	return false
 }
-
 
 // splitOwnSender: a received payload is stored into its sender's slot. The sender is normally another node, but a node
 // that lost its state is handed its own payloads back by recovery messages, so the slot may be the node's own. A path
